@@ -67,6 +67,75 @@ def acyclic_without(b, comp, removed):
     return True
 
 
+def counter_loop(b, comp):
+    """a cycle driven by an integer local that moves by a non-zero constant on every trip and is compared with a
+    loop-invariant value (while n > 0 { ..; n -= 1 } / while i < len { ..; i += 1 }).  Returns a description or None."""
+    comp_set = set(comp)
+    assigned = {}
+    for bi in comp:
+        for st in b.blocks[bi]["s"]:
+            if not st["d"]["p"]:
+                assigned.setdefault(st["d"]["l"], []).append((bi, st))
+        t = b.blocks[bi]["t"]
+        if t and t["t"] == "call" and not t["d"]["p"]:
+            assigned.setdefault(t["d"]["l"], []).append((bi, t))
+
+    def step_of(v):
+        """(block, +k / -k) if v is updated exactly once in the cycle, by v +- const"""
+        ups = [x for x in assigned.get(v, []) if isinstance(x[1], dict) and "rv" in x[1]]
+        if len(ups) != 1 or len(assigned.get(v, [])) != 1:
+            return None
+        bi, st = ups[0]
+        rv = st["rv"]
+        src = None
+        if rv["r"] == "bin" and rv["op"] in ("Add", "Sub"):
+            src = rv
+        elif rv["r"] == "use":
+            p = op_place(rv["o"])
+            if p and p["p"] and p["p"][0].startswith(".0"):
+                for bj in comp:
+                    for s2 in b.blocks[bj]["s"]:
+                        if s2["d"]["l"] == p["l"] and not s2["d"]["p"] and s2["rv"]["r"] == "bin" and s2["rv"]["op"] in ("AddWithOverflow", "SubWithOverflow"):
+                            src = s2["rv"]
+        if src is None:
+            return None
+        k = op_int(src["b"])
+        if k is None or k == 0 or op_local(src["a"]) != v:
+            return None
+        return bi, (k if src["op"].startswith("Add") else -k)
+    for bi in comp:
+        t = b.blocks[bi]["t"]
+        if not t or t["t"] != "switch":
+            continue
+        if all(x in comp_set for x in b.succs(bi)):
+            continue   # not an exit test
+        l = op_local(t["o"])
+        ds = [d for d in b.defs().get(l, []) if not d[2]["d"]["p"]] if l is not None else []
+        if len(ds) != 1 or ds[0][1] == "T" or ds[0][2]["rv"]["r"] != "bin":
+            continue
+        rv = ds[0][2]["rv"]
+        if rv["op"] not in ("Lt", "Le", "Gt", "Ge", "Ne"):
+            continue
+        for var, other in ((rv["a"], rv["b"]), (rv["b"], rv["a"])):
+            v = op_local(var)
+            if v is None:
+                continue
+            # look through a plain copy made inside the loop
+            vv = v
+            cp = [x for x in assigned.get(v, []) if "rv" in x[1] and x[1]["rv"]["r"] == "use" and op_local(x[1]["rv"]["o"]) is not None]
+            if len(assigned.get(v, [])) == 1 and cp:
+                vv = op_local(cp[0][1]["rv"]["o"])
+            st_ = step_of(vv)
+            if st_ is None:
+                continue
+            ol = op_local(other)
+            if ol is not None and ol in assigned and not (len(assigned[ol]) == 1 and "rv" in assigned[ol][0][1] and assigned[ol][0][1]["rv"]["r"] == "use" and (op_local(assigned[ol][0][1]["rv"]["o"]) or -1) not in assigned):
+                continue   # the bound changes inside the loop
+            if acyclic_without(b, comp, [st_[0]]):
+                return "counter _%d moves by %+d on every trip and is compared with a loop-invariant bound" % (vv, st_[1])
+    return None
+
+
 def call_sccs(cg, keys):
     idx, low, st, on, comps, c = {}, {}, [], set(), [], [0]
 
@@ -127,6 +196,10 @@ def check(F, cg, prog, reach, rep, P, audit):
                     detail = "driven by next() on %s" % ity[:80]
             if good:
                 rep.ok(P + ".loop", "%s: cycle driven by a finite iterator" % key, loc_of_block(b, comp[0]), detail)
+                continue
+            cl_ = counter_loop(b, comp)
+            if cl_:
+                rep.ok(P + ".loop", "%s: counter loop" % key, loc_of_block(b, comp[0]), cl_)
                 continue
             a = aloops.get(key)
             if a is None:
